@@ -63,11 +63,11 @@ def run(tier, seed, only=None):
 
     res = Result("C19")
     rng = random.Random(seed)
-    r = check_model("MC_TrainRun", MC % "intended", timeout=300, require_actions=("Step", "Crash"), workers=4)
+    r = check_model("MC_TrainRun", MC % "intended", timeout=900, require_actions=("Step", "Crash"), workers=4)
     res.add_mc("MC_TrainRun intended ordering, 96 configurations (64 + 32 low-memory fallbacks), crash at every step", r)
     if r.violation:
         raise TLCError("TrainRun intended ordering violates %s" % (r.violation,))
-    rc = check_model("MC_TrainRun", MC % "as_coded", timeout=300, expect_violation=("invariant", "NoKeyOnDisk"), workers=4)
+    rc = check_model("MC_TrainRun", MC % "as_coded", timeout=900, expect_violation=("invariant", "NoKeyOnDisk"), workers=4)
     res.add_mc("MC_TrainRun ordering as coded at the pinned commit", rc, "must violate NoKeyOnDisk: saves before masking, masking only if use_wandb")
     jobs = only if only is not None else (covering(rng, 2) if tier == "quick" else all_configs())
     for k, j in enumerate(jobs):
